@@ -4,6 +4,7 @@ from pyvc.contracts import FN, LOOP, LEMMA
 from pyvc.models_wire import WirePlugin
 from contracts import varint as _v
 
+DEPENDS = ['varint']
 SPEC_MODULES = ("wire",)
 PLUGINS = [WirePlugin()]
 
